@@ -479,7 +479,8 @@ func LAccesses(p *Prog, fns []*ssa.Function) []LAccess {
 					if sy := syncMutator(name); sy != "" {
 						add(in, loc, true, "call "+name, sy)
 						// read-modify-write methods hand back what another call stored
-						if mn := sc.Name(); strings.HasPrefix(mn, "Load") || strings.Contains(mn, "Swap") || strings.HasPrefix(mn, "Add") || strings.HasPrefix(mn, "CompareAnd") {
+						// … when the caller looks at what they hand back (a counter that is only bumped is written, not read)
+						if mn := sc.Name(); (strings.HasPrefix(mn, "Load") || strings.Contains(mn, "Swap") || strings.HasPrefix(mn, "Add") || strings.HasPrefix(mn, "CompareAnd")) && resultIsUsed(in) {
 							add(in, loc, false, "call "+name+" (hands back the stored value)", sy)
 						}
 					} else if sy := syncReader(name); sy != "" {
@@ -811,6 +812,20 @@ func statelessIfaceMethod(cc *ssa.CallCommon) bool {
 	// codecs, interface registries, loggers: stateless or internally synchronised by contract
 	for _, s := range []string{"/codec.", "/codec/types.", "log.Logger", "codec.Codec", "BinaryCodec", "JSONCodec", "InterfaceRegistry"} {
 		if strings.Contains(recv, s) {
+			return true
+		}
+	}
+	return false
+}
+
+// resultIsUsed: the call's value has a use other than debug references.
+func resultIsUsed(in ssa.Instruction) bool {
+	v, ok := in.(ssa.Value)
+	if !ok || v.Referrers() == nil {
+		return false
+	}
+	for _, rf := range *v.Referrers() {
+		if _, isDbg := rf.(*ssa.DebugRef); !isDbg {
 			return true
 		}
 	}
